@@ -71,6 +71,35 @@ func ruleTreeAccounting(c *Ctx) {
 	}
 }
 
+// ruleRemoveIsAtomic: RemoveRegion cleans the per-store indexes from the peers
+// and size of the region object it is given; that object must be the one in
+// the cache *at the moment of removal*: a cluster function that looks a region
+// up and removes it holds the cluster lock from the lookup to the removal
+// (heartbeat processing puts under the write lock).
+func ruleRemoveIsAtomic(c *Ctx) {
+	P := c.P
+	rule := c.Prop + "/index-discipline"
+	rm := P.Method("server/core", "BasicCluster", "RemoveRegion")
+	get := P.Method("server/cluster", "RaftCluster", "GetRegion")
+	sites, _ := c.nonScaffoldCallers(rm)
+	n := 0
+	done := map[*ssa.Function]bool{}
+	for _, s := range sites {
+		fn := s.Caller
+		if fnPkgPath(fn) != modPath+"/server/cluster" || done[fn] || len(callsIn(fn, false, F(get))) == 0 {
+			continue
+		}
+		done[fn] = true
+		n++
+		atomicRMWShared = true // the read lock excludes heartbeat processing, which puts under the write lock
+		c.atomicRMW(rule, fn, F(get), F(rm))
+		atomicRMWShared = false
+	}
+	if n == 0 {
+		c.Undec(rule, "lookup-then-remove in server/cluster", "at least one (DropCacheRegion)", "", "")
+	}
+}
+
 // ruleTreeLookups: two lookups the queries rest on. (1) A predecessor lookup
 // (DescendLessOrEqual) yields the region that starts at or before a key, not
 // necessarily one that contains it; only find() checks containment, so every
@@ -408,7 +437,7 @@ func init() {
 		})
 		c.Group("C07/tree-lookups", "queries start from find() (containment checked); random picks compute each range's index interval afresh", func() { ruleTreeLookups(c) })
 		c.Group("C07/role-index-table", "leaders/followers are fed from the voters (split on the leader test), learners from the learners, pending peers from the pending peers, both when inserting and when updating sizes", func() { ruleRoleIndexTable(c) })
-		c.Group("C07/index-discipline", "the shared item is re-pointed only after the old tree/sub-tree entries were removed; sub-tree rebuild is decided on leader, voters, learners and pending peers; range change on both keys; removals hit every index; mutators run under the BasicCluster write lock", func() { ruleRegionsInfoDiscipline(c) })
+		c.Group("C07/index-discipline", "the shared item is re-pointed only after the old tree/sub-tree entries were removed; sub-tree rebuild is decided on leader, voters, learners and pending peers; range change on both keys; removals hit every index; mutators run under the BasicCluster write lock", func() { ruleRegionsInfoDiscipline(c); ruleRemoveIsAtomic(c) })
 		c.Group("C07/btree-recycling", "recycled btree nodes are cleared in every slice (items, children, rank indices); rank indices are maintained by the structural operations", func() { ruleBTreeRecycling(c) })
 	})
 }
